@@ -787,9 +787,10 @@ class Engine:
                 raise Unsupported("binop " + type(op).__name__)
         if isinstance(a, SObj) or isinstance(b, SObj):
             return self.obj_binop(path, op, a, b)
+        import decimal
         for x in (a, b):
-            if isinstance(x, str) or x is None or isinstance(x, (list, tuple, dict)):
-                return [(path, ("__raise__", "TypeError"))]
+            if isinstance(x, str) or x is None or isinstance(x, (list, tuple, dict, decimal.Decimal)):
+                return [(path, ("__raise__", "TypeError"))]      # Decimal (+-*/) float is a TypeError in Python
             if isinstance(x, float) and x in (math.inf, -math.inf):
                 raise Unsupported("inf arithmetic with a symbolic operand")
         # a concrete NaN operand propagates (the symbolic operand is a finite number); Python still
@@ -1032,6 +1033,18 @@ class Engine:
                 return [(path, math.isnan(v))]
             except TypeError:
                 return [(path, ("__raise__", "TypeError"))]
+        if fv is math.isclose:
+            a, b = args[0], args[1]
+            rel = kwargs.get("rel_tol", 1e-09)
+            ab = kwargs.get("abs_tol", 0.0)
+            if not any(is_sym(t) for t in (a, b, rel, ab)):
+                return [(path, math.isclose(a, b, rel_tol=rel, abs_tol=ab))]
+            za, zb = to_real(a), to_real(b)
+            absf = lambda t: z3.If(t >= 0, t, -t)
+            m = z3.If(absf(za) >= absf(zb), absf(za), absf(zb))
+            tol = to_real(rel) * m
+            tol = z3.If(tol >= to_real(ab), tol, to_real(ab))
+            return [(path, z3.Or(za == zb, absf(za - zb) <= tol))]
         if fv is math.isinf:
             v = args[0]
             return [(path, False if is_sym(v) else math.isinf(v))]
